@@ -109,3 +109,115 @@ func InstrDominates(a, b ssa.Instruction) bool {
 	}
 	return ba.Dominates(bb)
 }
+
+// LockSite is one Lock / RLock call and what a path-sensitive walk from it found.
+type LockSite struct {
+	Lock     ssa.Instruction
+	Mutex    string // origin of the receiver
+	Deferred bool   // released by a deferred Unlock the Lock dominates
+	// Leaks: exits of the function (returns) reachable from the Lock without passing an Unlock of the same mutex;
+	// Relocks: Lock calls of the same mutex reachable the same way (self-deadlock)
+	Leaks, Relocks []ssa.Instruction
+}
+
+// LockSites examines every sync.Mutex / sync.RWMutex acquisition of fn: the lock must be given back on every path
+// to a return - by a deferred Unlock, or by an explicit one before the exit.  A panic exit is not counted (the
+// process or the recovering caller decides); a loop back to the same Lock without an Unlock is.
+func LockSites(fn *ssa.Function) []LockSite {
+	tr := NewTracer()
+	type op struct {
+		in     ssa.Instruction
+		mu     string
+		shared bool
+		lock   bool
+		deferd bool
+	}
+	ops := map[ssa.Instruction]op{}
+	var order []ssa.Instruction
+	for _, b := range fn.Blocks {
+		for _, in := range b.Instrs {
+			ci, ok := in.(ssa.CallInstruction)
+			if !ok {
+				continue
+			}
+			name := CalleeName(ci.Common())
+			var o op
+			switch name {
+			case "(*sync.Mutex).Lock", "(*sync.RWMutex).Lock":
+				o = op{lock: true}
+			case "(*sync.RWMutex).RLock":
+				o = op{lock: true, shared: true}
+			case "(*sync.Mutex).Unlock", "(*sync.RWMutex).Unlock":
+				o = op{}
+			case "(*sync.RWMutex).RUnlock":
+				o = op{shared: true}
+			default:
+				continue
+			}
+			args := CallArgs(ci.Common())
+			if len(args) == 0 {
+				continue
+			}
+			o.in = in
+			o.mu = tr.OriginString(args[0])
+			_, o.deferd = in.(*ssa.Defer)
+			if _, isGo := in.(*ssa.Go); isGo {
+				continue
+			}
+			ops[in] = o
+			order = append(order, in)
+		}
+	}
+	var out []LockSite
+	for _, in := range order {
+		o := ops[in]
+		if !o.lock || o.deferd {
+			continue
+		}
+		site := LockSite{Lock: in, Mutex: o.mu}
+		for _, d := range order {
+			od := ops[d]
+			if od.deferd && !od.lock && od.mu == o.mu && od.shared == o.shared && InstrDominates(in, d) {
+				site.Deferred = true
+			}
+		}
+		if !site.Deferred {
+			// walk forward from the instruction after the Lock
+			seen := map[*ssa.BasicBlock]bool{}
+			var walk func(b *ssa.BasicBlock, from int)
+			walk = func(b *ssa.BasicBlock, from int) {
+				for i := from; i < len(b.Instrs); i++ {
+					x := b.Instrs[i]
+					if ox, ok := ops[x]; ok && ox.mu == o.mu && ox.shared == o.shared {
+						if !ox.lock {
+							return // released (a deferred Unlock that the Lock does not dominate still runs at exit: counts when passed)
+						}
+						if !ox.deferd {
+							site.Relocks = append(site.Relocks, x)
+							return
+						}
+					}
+					if ret, ok := AsReturn(x); ok {
+						site.Leaks = append(site.Leaks, ret)
+						return
+					}
+				}
+				for _, s := range b.Succs {
+					if !seen[s] {
+						seen[s] = true
+						walk(s, 0)
+					}
+				}
+			}
+			idx := 0
+			for i, x := range in.Block().Instrs {
+				if x == in {
+					idx = i + 1
+				}
+			}
+			walk(in.Block(), idx)
+		}
+		out = append(out, site)
+	}
+	return out
+}
